@@ -453,7 +453,8 @@ theorem zipAdd_spec (it : Iter) (a1 a2 : ArraySized) (c : Spec.SSeq.ZipCursor El
       obtain ⟨u1, u2, u3, u4⟩ := addAt_room b1 e1 it.index m2 p2 (by rw [p5]; exact he1) hi1 (by rw [p4]; exact p8)
       obtain ⟨v1, v2, v3, v4⟩ := addAt_room b2 e2 it.index (b1.addAt e1 it.index m2).2.2 q2
         (by rw [q5]; exact he2) hi2 (by rw [q4]; exact q8)
-      refine ⟨trivial, ⟨?_, ?_, ?_, ?_, h5⟩, u2, v2, Bal.trans p9.bal (Bal.trans q9.bal (Bal.trans u4.bal v4.bal))⟩
+      rw [if_neg (by rw [u1]; simp), if_neg (by rw [v1]; simp)]
+      refine ⟨rfl, ⟨?_, ?_, ?_, ?_, h5⟩, u2, v2, Bal.trans p9.bal (Bal.trans q9.bal (Bal.trans u4.bal v4.bal))⟩
       · rw [u3, p3, h1, Spec.SSeq.ZipCursor.content1, h3, insertIdx_mid]
         simp [Spec.SSeq.ZipCursor.add, Spec.SSeq.ZipCursor.content1]
       · rw [v3, q3, h2, Spec.SSeq.ZipCursor.content2, h3, ← h4, insertIdx_mid]
